@@ -42,6 +42,11 @@ struct Streams {
     tty: Option<std::fs::File>,
 }
 
+thread_local! {
+    /// current_choice() of `AutoStream::new(stream, ColorChoice::Auto)` for the stream being observed (set right before `one`)
+    static NEW_AUTO: std::cell::Cell<ColorChoice> = const { std::cell::Cell::new(ColorChoice::Auto) };
+}
+
 const PROBE_TEXT: &str = "\x1b[1mX\x1b[0m";
 
 extern "C" {
@@ -93,6 +98,7 @@ fn observe(log: &mut impl Write, st: &Streams, g: ColorChoice, env: &[Option<OsS
         d.set("choice", J::s(choice_name(choice)));
         d.set("auto_current_choice", J::s(choice_name(current)));
         d.set("new_global_current_choice", J::s(choice_name(new_current)));
+        d.set("new_auto_current_choice", J::s(choice_name(NEW_AUTO.with(|c| c.get()))));
         d.set("stream_reports_terminal", J::Bool(reported_terminal));
         d.set("adapted", J::s(adapted));
         ds.push(d);
@@ -105,6 +111,7 @@ fn observe(log: &mut impl Write, st: &Streams, g: ColorChoice, env: &[Option<OsS
         let cur = a.current_choice();
         let rt = a.is_terminal();
         let n = AutoStream::new(Vec::<u8>::new(), ColorChoice::global()).current_choice();
+        NEW_AUTO.with(|c| c.set(AutoStream::new(Vec::<u8>::new(), ColorChoice::Auto).current_choice()));
         one("vec", false, c, cur, n, rt, ad);
     }
     {
@@ -116,6 +123,7 @@ fn observe(log: &mut impl Write, st: &Streams, g: ColorChoice, env: &[Option<OsS
         let cur = a.current_choice();
         let rt = a.is_terminal();
         let n = AutoStream::new(st.regular.try_clone().expect("clone"), ColorChoice::global()).current_choice();
+        NEW_AUTO.with(|c| c.set(AutoStream::new(st.regular.try_clone().expect("clone"), ColorChoice::Auto).current_choice()));
         one("file", t, c, cur, n, rt, ad);
     }
     if let Some(tty) = &st.tty {
@@ -127,6 +135,7 @@ fn observe(log: &mut impl Write, st: &Streams, g: ColorChoice, env: &[Option<OsS
         let cur = a.current_choice();
         let rt = a.is_terminal();
         let n = AutoStream::new(tty.try_clone().expect("clone"), ColorChoice::global()).current_choice();
+        NEW_AUTO.with(|c| c.set(AutoStream::new(tty.try_clone().expect("clone"), ColorChoice::Auto).current_choice()));
         one("ttyfile", t, c, cur, n, rt, ad);
     }
     {
@@ -138,11 +147,13 @@ fn observe(log: &mut impl Write, st: &Streams, g: ColorChoice, env: &[Option<OsS
         let cur = a.current_choice();
         let rt = a.is_terminal();
         let n = AutoStream::new(std::io::stdout(), ColorChoice::global()).current_choice();
+        NEW_AUTO.with(|c| c.set(AutoStream::new(std::io::stdout(), ColorChoice::Auto).current_choice()));
         one("stdout", t, c, cur, n, rt, ad);
         let l = std::io::stdout().lock();
         let c2 = AutoStream::choice(&l);
         drop(l);
         if c2 != c {
+            NEW_AUTO.with(|c| c.set(ColorChoice::Auto));
             one("stdout-lock-disagrees", t, c2, cur, n, rt, String::new());
         }
     }
@@ -156,6 +167,7 @@ fn observe(log: &mut impl Write, st: &Streams, g: ColorChoice, env: &[Option<OsS
         let a = anstream::stdout().lock();
         let (cur, rt) = (a.current_choice(), a.is_terminal());
         drop(a);
+        NEW_AUTO.with(|c| c.set(ColorChoice::Auto));
         one("stdout_lock", t, c, cur, cur, rt, ad);
         let l = std::io::stderr().lock();
         let t = l.is_terminal();
@@ -165,12 +177,14 @@ fn observe(log: &mut impl Write, st: &Streams, g: ColorChoice, env: &[Option<OsS
         let a = anstream::stderr().lock();
         let (cur, rt) = (a.current_choice(), a.is_terminal());
         drop(a);
+        NEW_AUTO.with(|c| c.set(ColorChoice::Auto));
         one("stderr_lock", t, c, cur, cur, rt, ad);
         let b: Box<dyn Write> = Box::new(Vec::<u8>::new());
         let c = AutoStream::choice(&b);
         let ad = anstream::_macros::to_adapted_string(&PROBE_TEXT, &b);
         let a = AutoStream::auto(b);
         let (cur, rt) = (a.current_choice(), a.is_terminal());
+        NEW_AUTO.with(|c| c.set(ColorChoice::Auto));
         one("box_dyn", false, c, cur, cur, rt, ad);
         if let Some(tty) = &st.tty {
             let mut f = tty.try_clone().expect("clone");
@@ -180,6 +194,7 @@ fn observe(log: &mut impl Write, st: &Streams, g: ColorChoice, env: &[Option<OsS
             let ad = anstream::_macros::to_adapted_string(&PROBE_TEXT, &r);
             let a = AutoStream::auto(r);
             let (cur, rt) = (a.current_choice(), a.is_terminal());
+            NEW_AUTO.with(|c| c.set(ColorChoice::Auto));
             one("mut_ttyfile", t, c, cur, cur, rt, ad);
         }
     }
@@ -192,6 +207,7 @@ fn observe(log: &mut impl Write, st: &Streams, g: ColorChoice, env: &[Option<OsS
         let cur = a.current_choice();
         let rt = a.is_terminal();
         let n = AutoStream::new(std::io::stderr(), ColorChoice::global()).current_choice();
+        NEW_AUTO.with(|c| c.set(AutoStream::new(std::io::stderr(), ColorChoice::Auto).current_choice()));
         one("stderr", t, c, cur, n, rt, ad);
     }
     o.set("decisions", J::Arr(ds));
@@ -246,6 +262,15 @@ fn os(s: &str) -> Option<OsString> {
     Some(OsString::from(s))
 }
 
+struct FailAfter<'a>(&'a str);
+
+impl std::fmt::Display for FailAfter<'_> {
+    fn fmt(&self, f: &mut std::fmt::Formatter<'_>) -> std::fmt::Result {
+        f.write_str(self.0)?;
+        Err(std::fmt::Error)
+    }
+}
+
 /// `to_adapted_string(text, stream)` against the stream it stands in for: whatever the detection decides for the
 /// stream, the helper renders the text like `AutoStream::new(Vec, that choice)` does (texts with escapes, with DEL / C0
 /// controls only, plain, long).  One JSON line per disagreement and a summary line.
@@ -283,6 +308,22 @@ fn adapted_mode(log: &mut impl Write, seed: u64, n: u64) {
                 ColorChoice::Always => 2,
                 ColorChoice::Never => 3,
             }] += 1;
+            // a value whose Display emits its text and then reports an error: what was delivered before the error stays
+            // (only where the stream itself survives such a value: std's write_fmt panics on it in pass-through mode)
+            let (got, want) = if decided == ColorChoice::Never && i % 3 == 0 {
+                let fa = FailAfter(&text);
+                let g2 = anstream::_macros::to_adapted_string(&fa, &sink);
+                let mut r2 = AutoStream::new(Vec::<u8>::new(), decided);
+                let _ = write!(r2, "{fa}");
+                let w2 = String::from_utf8_lossy(&r2.into_inner()).into_owned();
+                if got == want {
+                    (g2, w2)
+                } else {
+                    (got, want)
+                }
+            } else {
+                (got, want)
+            };
             if got != want {
                 bad += 1;
                 if bad <= 5 {
